@@ -3,7 +3,7 @@
 Inputs : (a) programs rendered by a grammar-based generator that places legal trivia in every gap,
          (b) token-mutated real build files that still parse, (c) the repo's own format test inputs,
          each under a Hypothesis-drawn formatter configuration (meson.format file, optional .editorconfig).
-Oracle : independent reader harness/refmeson.py (own lexer, own parser, own escape decoder):
+Oracle : independent reader harness/reffmt.py (own lexer, own parser, own escape decoder):
          out parses; norm(out) == norm(src); same comments in the same order; format(out) == out;
          CLI law for --check-only / --check-diff / --inplace / --output / stdout; no exception.
 """
@@ -20,7 +20,7 @@ import sys
 import typing as T
 
 from harness.core import Ctx, Evidence, Failure, HarnessError, REPO, campaign, pmap, shard_seeds
-from harness import refmeson as R
+from harness import reffmt as R
 
 LEVEL = 'exploration'
 RULE = ('grammar shards: Hypothesis composite renders a program (assignments, +=, if/elif/else, foreach, calls with '
@@ -39,7 +39,7 @@ ASSUMPTIONS = [
     'integer literals are compared by value, identifiers/keywords/operators by spelling, keyword-argument and dict-entry order is significant',
     'legal configuration values: indent_by and indent_before_comments are strings of blanks/tabs (indent_by non-empty), tab_width >= 1, max_line_length >= 0',
     'with sort_files on, comments written inside a files(...) call may move with the re-ordered arguments: they are compared as a multiset there',
-    'files accepted by the tool parser but not by the documented grammar (missing operands, positional after keyword argument, ...) are compared on trees built from the tool parser by an own visitor (class "lenient")',
+    'a "parseable build file" is one accepted by the tool parser AND by the documented grammar (Syntax.md); texts the tool parser accepts only through leniency (missing operands, positional after keyword argument, ...) are excluded and counted',
 ]
 
 FIELDS = ['max_line_length', 'indent_by', 'space_array', 'kwargs_force_multiline', 'wide_colon', 'no_single_comma_function',
@@ -251,16 +251,132 @@ def files_calls(toks: T.List[R.Tok]) -> T.List[T.Tuple[int, int]]:
     return out
 
 
-def hazards(case: dict, toks: T.List[R.Tok], tree: T.Any) -> T.List[str]:
+class Hazard(T.NamedTuple):
+    sig: str                       # signature given to a failure of one of `families` when the hazard is present
+    families: T.Tuple[str, ...]    # first component of the generic signature it can show up as
+    why: str
+
+
+def _sig_toks(toks: T.List[R.Tok]) -> T.List[int]:
+    return [k for k, t in enumerate(toks) if t.kind not in ('comment', 'cont', 'nl', 'eof')]
+
+
+def _match(toks: T.List[R.Tok], k: int) -> int:
+    """index of the bracket closing the opener at index k"""
+    d = 0
+    for q in range(k, len(toks)):
+        t = toks[q]
+        if t.kind == 'op' and t.text in '([{':
+            d += 1
+        elif t.kind == 'op' and t.text in ')]}':
+            d -= 1
+            if d == 0:
+                return q
+    return len(toks) - 1
+
+
+def _has_comment(toks: T.List[R.Tok], a: int, b: int) -> bool:
+    return any(t.kind in ('comment', 'cont') and t.val is not None for t in toks[a:b])
+
+
+def _files_list_tail_comment(toks: T.List[R.Tok]) -> bool:
+    """files( [ ... ] <comment> ) : a comment between the closing ] of the only argument and the closing )"""
+    for a, b in files_calls(toks):
+        inner = [k for k in range(a + 1, b) if toks[k].kind not in ('comment', 'cont', 'nl')]
+        if not inner or not (toks[inner[0]].kind == 'op' and toks[inner[0]].text == '['):
+            continue
+        m = _match(toks, inner[0])
+        rest = [k for k in inner if k > m]
+        if all(toks[k].kind == 'op' and toks[k].text == ',' for k in rest) and len(rest) <= 1 and _has_comment(toks, m, b):
+            return True
+    return False
+
+
+def _files_empty_list_comment(toks: T.List[R.Tok]) -> bool:
+    for a, b in files_calls(toks):
+        inner = [k for k in range(a + 1, b) if toks[k].kind not in ('comment', 'cont', 'nl')]
+        if len(inner) >= 2 and toks[inner[0]].text == '[' and toks[inner[1]].text == ']' and _has_comment(toks, inner[0], inner[1]):
+            return True
+    return False
+
+
+def _single_arg_call(toks: T.List[R.Tok]) -> bool:
+    """name( one_argument ) or name( one_argument , ) - a call (function or method) with exactly one argument"""
+    sig = _sig_toks(toks)
+    for x, y in zip(sig, sig[1:]):
+        if toks[x].kind == 'id' and toks[y].kind == 'op' and toks[y].text == '(':
+            e = _match(toks, y)
+            inner = [k for k in sig if y < k < e]
+            if toks[x].text == 'files' and inner and toks[inner[0]].kind == 'op' and toks[inner[0]].text == '[':
+                m = _match(toks, inner[0])
+                if all(toks[k].text == ',' for k in inner if k > m):       # files([...]) is flattened first
+                    inner = [k for k in inner if inner[0] < k < m]
+            if not inner:
+                continue
+            trailing = toks[inner[-1]].kind == 'op' and toks[inner[-1]].text == ','
+            d = 0
+            commas = 0
+            for k in inner:
+                t = toks[k]
+                if t.kind == 'op' and t.text in '([{':
+                    d += 1
+                elif t.kind == 'op' and t.text in ')]}':
+                    d -= 1
+                elif d == 0 and t.kind == 'op' and t.text == ',':
+                    commas += 1
+            if commas == (1 if trailing else 0):
+                return True
+    return False
+
+
+def _grouping_paren_with_brackets(toks: T.List[R.Tok]) -> bool:
+    """a grouping parenthesis (one that is not a call's) which contains another bracket of any kind"""
+    sig = _sig_toks(toks)
+    for n, k in enumerate(sig):
+        t = toks[k]
+        if t.kind == 'op' and t.text == '(' and not (n > 0 and toks[sig[n - 1]].kind == 'id'):
+            e = _match(toks, k)
+            if any(toks[q].kind == 'op' and toks[q].text in '([{' for q in range(k + 1, e)):
+                return True
+    return False
+
+
+def hazards(case: dict, toks: T.List[R.Tok], tree: T.Any) -> T.List[Hazard]:
     hz = []
+    if _grouping_paren_with_brackets(toks):
+        hz.append(Hazard('idempotence/multiline-parens-closer-indent', ('idempotence',),
+                         'a parenthesised expression that the line-length rule breaks and that holds another bracket: inner closers are mis-indented by the first run'))
     if effective(case, 'simplify_string_literals'):
         if any(t.kind == 'str' and t.val[1] and ml_backslash_hazard(t.val[2]) for t in toks):
-            hz.append('known:triple-quoted string with backslash is simplified (C16 string/ml-backslash-simplified)')
+            hz.append(Hazard('string/ml-backslash-simplified', ('output', 'meaning'),
+                             'a triple-quoted literal holding a backslash escape (or ending in a backslash) is rewritten to a plain one'))
     if any(t.kind in ('comment', 'cont') and t.val is not None and any(c in t.val.rstrip() for c in ODD_SEPARATORS) for t in toks):
-        hz.append('known:comment holding a Unicode/ASCII line-separator character (C16 comments/line-separator-char-dropped)')
+        hz.append(Hazard('comments/line-separator-char-dropped', ('comments',),
+                         'a comment holds a character that str.splitlines() treats as a line boundary (FF, VT, FS/GS/RS, NEL, LS, PS, CR)'))
     if effective(case, 'sort_files') and _unsorted_files_list(tree):
-        hz.append('known:sort_files with files([...]) needs two passes (C16 idempotence/sort_files-after-flatten)')
+        hz.append(Hazard('idempotence/sort_files-after-flatten', ('idempotence',),
+                         'sort_files with files([...]): the list is flattened after sorting, so it is only sorted by a second run'))
+    if any(t.kind == 'cont' and t.depth > 0 for t in toks):
+        hz.append(Hazard('idempotence/continuation-in-brackets', ('idempotence',),
+                         'a backslash continuation written inside brackets: the enclosing argument lists are only laid out one-per-line by the second run'))
+    if _files_empty_list_comment(toks):
+        hz.append(Hazard('idempotence/files-empty-list-comment', ('idempotence',),
+                         'files([ # comment ]) with nothing else in the list: left alone by a one-round run, flattened when a long line elsewhere causes another round'))
+    if _files_list_tail_comment(toks):
+        hz.append(Hazard('comments/lost:files-list-flatten', ('comments',),
+                         'files([...] # comment ) : flattening the list drops what is written between ] and )'))
+    if (case.get('cfg') or {}).get('no_single_comma_function') and _single_arg_call(toks):
+        hz.append(Hazard('idempotence/no_single_comma_function', ('idempotence',),
+                         'with no_single_comma_function a one-argument call laid out one-per-line keeps no trailing comma, so the next run decides its layout anew'))
     return hz
+
+
+def refine(sig: str, hz: T.List[Hazard]) -> str:
+    fam = sig.split('/', 1)[0]
+    for h in hz:
+        if fam in h.families:
+            return h.sig
+    return sig
 
 
 def _unsorted_files_list(tree: T.Any) -> bool:
@@ -338,9 +454,11 @@ def evaluate(case: dict, W: _Worker, allow_known: bool = False, info: T.Optional
         raw_src = R.parse(src)
         strict = True
     except R.RefError:
-        raw_src = mp_to_norm(mp_src)
-        strict = False
+        # accepted by the tool parser only through its leniency (missing operands, positional after keyword
+        # argument, statement and block keyword on one line ...): not a build file in the documented grammar
         info.lenient = True
+        info.excluded.append('tool parser accepts, documented grammar does not (parser leniency, C02 territory)')
+        return None
     if strict:
         mp_tree = mp_to_norm(mp_src)
         if mp_tree != raw_src:
@@ -348,9 +466,14 @@ def evaluate(case: dict, W: _Worker, allow_known: bool = False, info: T.Optional
             info.events.append('ref_vs_tool_tree_mismatch')
             return None
     hz = hazards(case, toks, raw_src)
+    skip: T.Set[str] = set()          # clauses not judged because a known finding of that family is present
     if hz and not allow_known:
-        info.excluded.extend(hz)
-        return None
+        for h in hz:
+            if 'output' in h.families or 'meaning' in h.families:
+                info.excluded.append(f'known finding {h.sig}: {h.why}')
+                return None
+            info.excluded.append(f'clause skipped, known finding {h.sig}: {h.why}')
+            skip.update(h.families)
     want = R.simplify(raw_src, sort_files)
     want_comments = [t.val.rstrip() for t in toks if t.kind in ('comment', 'cont') and t.val is not None]
     info.nontrivial = is_nontrivial(case, src, toks)
@@ -374,7 +497,7 @@ def evaluate(case: dict, W: _Worker, allow_known: bool = False, info: T.Optional
     try:
         mp_out = tool_parse(out)
     except MesonException as e:
-        return Failure(classify_unparseable(src, toks), rcase, f'formatted text does not parse: {str(e)[:300]}\n--- src\n{src}\n--- out\n{out}')
+        return Failure(refine('output/unparseable', hz), rcase, f'formatted text does not parse: {str(e)[:300]}\n--- src\n{src}\n--- out\n{out}')
     try:
         out_toks = R.lex(out)
         got_raw = R.parse(out) if strict else mp_to_norm(mp_out)
@@ -385,13 +508,13 @@ def evaluate(case: dict, W: _Worker, allow_known: bool = False, info: T.Optional
     got = R.simplify(got_raw, sort_files)
     if got != want:
         where = R.first_diff(want, got)
-        return Failure(classify_meaning(want, got, src, toks), rcase,
+        return Failure(refine(classify_meaning(want, got), hz), rcase,
                        f'formatted text is a different program; source tree vs output tree {where}\n--- src\n{src}\n--- out\n{out}')
     # -- (3) same comments, same order
     got_comments = [t.val.rstrip() for t in out_toks if t.kind in ('comment', 'cont') and t.val is not None]
-    if got_comments != want_comments:
+    if got_comments != want_comments and 'comments' not in skip:
         if not (comment_multiset_ok(case, toks) and sorted(got_comments) == sorted(want_comments)):
-            return Failure(classify_comments(want_comments, got_comments), rcase,
+            return Failure(refine(classify_comments(want_comments, got_comments), hz), rcase,
                            f'comments differ: expected {want_comments!r}\n got {got_comments!r}\n--- src\n{src}\n--- out\n{out}')
         info.events.append('comments_compared_as_multiset(sort_files)')
     # -- (4) second pass is a no-op
@@ -400,12 +523,12 @@ def evaluate(case: dict, W: _Worker, allow_known: bool = False, info: T.Optional
     except Exception as e:
         return Failure(f'idempotence/second-pass-raises:{type(e).__name__}', rcase,
                        f'formatting the result again raised {e!r}\n--- src\n{src}\n--- out\n{out}')
-    if out2 != out:
+    if out2 != out and 'idempotence' not in skip:
         try:
             out3 = fm.format(out2, path)
         except Exception:
             out3 = None
-        return Failure(classify_idem(case, src, toks, out, out2, out3), rcase,
+        return Failure(refine(classify_idem(out, out2, out3), hz), rcase,
                        f'formatting the result again changes it ({"stable after the 2nd pass" if out3 == out2 else "still changing after the 2nd pass"})'
                        f'\n--- src\n{src}\n--- out (1st)\n{out}\n--- out (2nd)\n{out2}')
     # -- (5) CLI law
@@ -416,15 +539,9 @@ def evaluate(case: dict, W: _Worker, allow_known: bool = False, info: T.Optional
     return None
 
 
-def classify_unparseable(src: str, toks: T.List[R.Tok]) -> str:
-    if any(t.kind == 'str' and t.val[1] and ml_backslash_hazard(t.val[2]) for t in toks):
-        return 'string/ml-backslash-simplified'
-    return 'output/unparseable'
-
-
 def _strings(tree: T.Any, acc: T.List[tuple]) -> None:
     if isinstance(tree, tuple):
-        if tree[:1] == ('str',) and len(tree) == 3 and isinstance(tree[2], str):
+        if tree[:1] == ('str',) and len(tree) == 3 and isinstance(tree[1], bool) and isinstance(tree[2], str):
             acc.append(tree)
             return
         for x in tree:
@@ -433,13 +550,13 @@ def _strings(tree: T.Any, acc: T.List[tuple]) -> None:
 
 def _skeleton(tree: T.Any) -> T.Any:
     if isinstance(tree, tuple):
-        if tree[:1] == ('str',) and len(tree) == 3 and isinstance(tree[2], str):
+        if tree[:1] == ('str',) and len(tree) == 3 and isinstance(tree[1], bool) and isinstance(tree[2], str):
             return ('str',)
         return tuple(_skeleton(x) for x in tree)
     return tree
 
 
-def classify_meaning(want: T.Any, got: T.Any, src: str, toks: T.List[R.Tok]) -> str:
+def classify_meaning(want: T.Any, got: T.Any) -> str:
     if _skeleton(want) == _skeleton(got):
         a: T.List[tuple] = []
         b: T.List[tuple] = []
@@ -448,8 +565,6 @@ def classify_meaning(want: T.Any, got: T.Any, src: str, toks: T.List[R.Tok]) -> 
         for x, y in zip(a, b):
             if x != y:
                 if x[2] != y[2]:
-                    if any(t.kind == 'str' and t.val[1] and ml_backslash_hazard(t.val[2]) for t in toks):
-                        return 'string/ml-backslash-simplified'
                     return 'meaning/string-text-changed'
                 return 'meaning/fstring-flag-changed'
     where = R.first_diff(want, got)
@@ -475,36 +590,32 @@ def classify_comments(want: T.List[str], got: T.List[str]) -> str:
             sg.remove(c)
     # sw: comments missing from the output; sg: comments only in the output
     if sw and sg:
-        if any(ch in c for c in sw for ch in ODD_SEPARATORS):
-            return 'comments/line-separator-char-dropped'
         return 'comments/altered'
     if sw:
         return 'comments/lost'
     return 'comments/added'
 
 
-def classify_idem(case: dict, src: str, toks: T.List[R.Tok], out: str, out2: str, out3: T.Optional[str]) -> str:
-    if effective(case, 'sort_files'):
-        try:
-            if _unsorted_files_list(R.parse(src)):
-                return 'idempotence/sort_files-after-flatten'
-        except R.RefError:
-            pass
-    feats = []
-    try:
-        ot = R.lex(out)
-    except R.RefError:
-        ot = []
-    if any(t.kind == 'cont' for t in ot):
-        feats.append('continuation')
-    if any(t.kind == 'comment' and t.depth > 0 for t in ot):
-        feats.append('comment-in-brackets')
-    if any(t.kind == 'str' and t.val[1] and '\n' in t.val[2] for t in ot):
-        feats.append('multiline-string')
-    if not feats:
-        feats.append('plain')
-    conv = 'converges' if out3 == out2 else 'unstable'
-    return f'idempotence/{conv}:{"+".join(feats)}'
+def classify_idem(out: str, out2: str, out3: T.Optional[str]) -> str:
+    """shape of the difference between the first and the second run (features of the changed lines only,
+    so that shrinking the rest of the file does not change the signature)"""
+    import difflib
+    a, b = out.split('\n'), out2.split('\n')
+    da: T.List[str] = []
+    db: T.List[str] = []
+    for tag, i1, i2, j1, j2 in difflib.SequenceMatcher(None, a, b, autojunk=False).get_opcodes():
+        if tag != 'equal':
+            da.extend(a[i1:i2])
+            db.extend(b[j1:j2])
+    if [x.strip() for x in da] == [x.strip() for x in db]:
+        shape = 'indentation'
+    elif ''.join(''.join(da).split()) == ''.join(''.join(db).split()):
+        shape = 'rejoined' if len(db) < len(da) else ('resplit' if len(db) > len(da) else 'blanks')
+    elif ''.join(''.join(da).split()).replace(',', '') == ''.join(''.join(db).split()).replace(',', ''):
+        shape = 'commas'
+    else:
+        shape = 'other'
+    return f'idempotence/{shape}' + ('' if out3 == out2 else ':unstable')
 
 
 def cli_law(case: dict, rcase: dict, W: _Worker, d: str, src: str, out: str) -> T.Optional[Failure]:
@@ -570,50 +681,72 @@ def cli_law(case: dict, rcase: dict, W: _Worker, d: str, src: str, out: str) -> 
 # ---------------------------------------------------------------------------
 # configuration strategy (legal values only: see FormatterConfig getters and the option list in Commands.md)
 
-def st_config() -> T.Any:
-    from hypothesis import strategies as st
-    opt_bool = st.sampled_from([None, None, True, False])
-    d = {
-        'max_line_length': st.sampled_from([None, None, None, 0, 1, 10, 20, 30, 40, 60, 80, 120, 1000]),
-        'indent_by': st.sampled_from([None, None, None, ' ', '  ', '   ', '    ', '        ', '\t', '\t\t', ' \t']),
-        'end_of_line': st.sampled_from([None, None, 'lf', 'crlf', 'cr', 'native']),
-        'indent_before_comments': st.sampled_from([None, None, '', ' ', '  ', '    ', '\t']),
-        'tab_width': st.sampled_from([None, None, 1, 2, 3, 4, 8]),
-    }
-    for b in BOOL_FIELDS:
-        d[b] = opt_bool
-    plain = st.fixed_dictionaries(d).map(lambda c: {k: v for k, v in c.items() if v is not None})
-    return st.one_of(st.just({}), plain, plain)
+class Ent:
+    """entropy source: one Hypothesis-drawn byte string per case, consumed left to right.  Exhausted or
+    zeroed entropy yields 0 everywhere = the plainest choice (what the shrinker steers towards)."""
+
+    def __init__(self, data: bytes):
+        self.d = data
+        self.i = 0
+
+    def below(self, n: int) -> int:
+        if n <= 1 or self.i >= len(self.d):
+            return 0
+        v = self.d[self.i]
+        self.i += 1
+        if n > 256:
+            v = v * 256 + (self.d[self.i] if self.i < len(self.d) else 0)
+            self.i += 1
+            if n > 65536:
+                v = v * 256 + (self.d[self.i] if self.i < len(self.d) else 0)
+                self.i += 1
+        return v % n
+
+    def pick(self, seq: T.Sequence[T.Any]) -> T.Any:
+        return seq[self.below(len(seq))]
 
 
-def st_editorconfig() -> T.Any:
-    from hypothesis import strategies as st
-    ec = st.fixed_dictionaries({
-        'section': st.sampled_from(['*', '*.build', 'meson.build', '*.{build,meson}', '**.build']),
-        'indent_style': st.sampled_from([None, 'space', 'tab']),
-        'indent_size': st.sampled_from([None, 1, 2, 3, 8]),
-        'tab_width': st.sampled_from([None, 2, 8]),
-        'end_of_line': st.sampled_from([None, 'lf', 'crlf', 'cr']),
-        'insert_final_newline': st.sampled_from([None, True, False]),
-        'max_line_length': st.sampled_from([None, 'off', 20, 50, 100]),
-    })
-    # (editorconfig dict or None, switched on by the -e flag (True) or by use_editor_config in meson.format (False))
-    return st.one_of(st.just((None, False)), st.just((None, False)), st.just((None, False)),
-                     st.tuples(ec, st.booleans()))
+CFG_CHOICES: T.Dict[str, T.List[T.Any]] = {
+    'max_line_length': [None, None, None, 0, 1, 10, 20, 30, 40, 60, 80, 120, 1000],
+    'indent_by': [None, None, None, ' ', '  ', '   ', '    ', '        ', '\t', '\t\t', ' \t'],
+    'end_of_line': [None, None, 'lf', 'crlf', 'cr', 'native'],
+    'indent_before_comments': [None, None, '', ' ', '  ', '    ', '\t'],
+    'tab_width': [None, None, 1, 2, 3, 4, 8],
+}
+EC_CHOICES: T.Dict[str, T.List[T.Any]] = {
+    'section': ['*', '*.build', 'meson.build', '*.{build,meson}', '**.build'],
+    'indent_style': [None, 'space', 'tab'],
+    'indent_size': [None, 1, 2, 3, 8],
+    'tab_width': [None, 2, 8],
+    'end_of_line': [None, 'lf', 'crlf', 'cr'],
+    'insert_final_newline': [None, True, False],
+    'max_line_length': [None, 'off', 20, 50, 100],
+}
 
 
-def attach_config(draw: T.Any, case: dict) -> dict:
-    from hypothesis import strategies as st
-    cfg = dict(draw(st_config()))
-    ec, via_flag = draw(st_editorconfig())
+def gen_config(ent: Ent, case: dict) -> dict:
+    """legal values only: see the FormatterConfig getters and the option list in Commands.md"""
+    cfg: dict = {}
+    if ent.below(3) != 0:
+        for k in FIELDS:
+            if k == 'use_editor_config':
+                continue
+            v = ent.pick(CFG_CHOICES[k]) if k in CFG_CHOICES else ent.pick([None, None, True, False])
+            if v is not None:
+                cfg[k] = v
+    ec = None
+    via_flag = False
+    if ent.below(4) == 1:
+        ec = {k: ent.pick(v) for k, v in EC_CHOICES.items()}
+        via_flag = ent.below(2) == 1
+        if not via_flag:
+            cfg['use_editor_config'] = True
     case['cfg'] = cfg
     case['ec'] = ec
     case['ec_flag'] = bool(ec is not None and via_flag)
-    if ec is not None and not via_flag:
-        cfg['use_editor_config'] = True
-    case['cli'] = draw(st.integers(0, 3)) == 0
-    case['crlf'] = draw(st.integers(0, 3)) == 0
-    case['explicit_c'] = draw(st.booleans())
+    case['cli'] = ent.below(4) == 1
+    case['crlf'] = ent.below(4) == 1
+    case['explicit_c'] = ent.below(2) == 0
     return case
 
 
@@ -644,10 +777,8 @@ COMPOUND = ['call', 'call', 'method', 'method', 'index', 'array', 'array', 'dict
 class Em:
     """text emitter: every token is preceded by a drawn gap that is legal at that place"""
 
-    def __init__(self, draw: T.Any, wild: int, simplify_on: bool):
-        from hypothesis import strategies as st
-        self.st = st
-        self.draw = draw
+    def __init__(self, ent: Ent, wild: int, simplify_on: bool):
+        self.ent = ent
         self.wild = wild                 # 0: canonical gaps only ... 3: half of the gaps are odd
         self.p = [0, 4, 18, 50][wild]
         self.out: T.List[str] = []
@@ -659,13 +790,15 @@ class Em:
         self.pending = ''
         self.simplify_on = simplify_on
         self.defused = 0
-        self.pct = st.integers(0, 99)
 
     def chance(self, pct: int) -> bool:
-        return self.draw(self.pct) < pct
+        return self.ent.below(100) < pct
 
     def pick(self, seq: T.Sequence[T.Any]) -> T.Any:
-        return seq[self.draw(self.st.integers(0, len(seq) - 1))]
+        return seq[self.ent.below(len(seq))]
+
+    def rint(self, lo: int, hi: int) -> int:
+        return lo + self.ent.below(hi - lo + 1)
 
     def comment(self) -> str:
         self.ncom += 1
@@ -678,10 +811,10 @@ class Em:
 
     def gap(self, need: bool) -> str:
         base = ' ' if need else ''
-        if self.p == 0 or self.draw(self.pct) >= self.p:
+        if self.p == 0 or self.ent.below(100) >= self.p:
             return base
         if self.depth > 0:
-            k = self.draw(self.st.integers(0, 9))
+            k = self.rint(0, 9)
             if k == 0:
                 return ' '
             if k == 1:
@@ -701,7 +834,7 @@ class Em:
             if k == 8:
                 return ' ' + self.comment() + '\n' + self.spaces() + self.comment() + '\n'
             return '\n' + self.spaces() + '\n' + self.spaces() + self.comment() + '\n\n'
-        k = self.draw(self.st.integers(0, 5))
+        k = self.rint(0, 5)
         if k == 0:
             return ' '
         if k == 1:
@@ -755,7 +888,7 @@ class Em:
             s += self.pick(['', ' ', '  ', '\t']) + self.comment()
         s += '\n'
         while self.chance(4 + self.p // 3):
-            k = self.draw(self.st.integers(0, 3))
+            k = self.rint(0, 3)
             if k == 0:
                 s += '\n'
             elif k == 1:
@@ -773,12 +906,11 @@ class Em:
 
 
 def g_string(em: Em, filename: bool = False) -> str:
-    st = em.st
     if filename:
         body = em.pick(FILENAMES)
         return "'" + body + "'"
-    kind = em.draw(st.integers(0, 9))     # 0-5 plain, 6-7 triple, 8 f, 9 f-triple
-    n = em.draw(st.integers(0, 4))
+    kind = em.rint(0, 9)     # 0-5 plain, 6-7 triple, 8 f, 9 f-triple
+    n = em.rint(0, 4)
     if kind <= 5 or kind == 8:
         parts = []
         for _ in range(n):
@@ -802,9 +934,8 @@ def g_string(em: Em, filename: bool = False) -> str:
 
 def g_args(em: Em, d: int, tern_ok: bool, ind: int, kw_ok: bool = True, only_strings: bool = False, dict_mode: bool = False) -> None:
     """comma separated items up to (not including) the closer"""
-    st = em.st
-    npos = 0 if dict_mode else em.draw(st.integers(0, 4))
-    nkw = em.draw(st.integers(0, 3)) if (kw_ok or dict_mode) else 0
+    npos = 0 if dict_mode else em.rint(0, 4)
+    nkw = em.rint(0, 3) if (kw_ok or dict_mode) else 0
     if only_strings:
         nkw = 0
     total = npos + nkw
@@ -826,7 +957,7 @@ def g_args(em: Em, d: int, tern_ok: bool, ind: int, kw_ok: bool = True, only_str
             em.tok(':')
             g_expr(em, 1, d - 1, tern_ok, ind + 1)
         else:
-            name = names.pop(em.draw(st.integers(0, len(names) - 1)))
+            name = names.pop(em.rint(0, len(names) - 1))
             em.tok(name)
             em.tok(':')
             g_expr(em, 1, d - 1, tern_ok, ind + 1)
@@ -853,7 +984,6 @@ def g_expr(em: Em, lvl: int, d: int, tern_ok: bool, ind: int) -> None:
 
 
 def _g_node(em: Em, kind: str, d: int, tern_ok: bool, ind: int) -> None:
-    st = em.st
     if kind == 'id':
         em.tok(em.pick(IDS))
     elif kind == 'num':
@@ -923,7 +1053,7 @@ def _g_node(em: Em, kind: str, d: int, tern_ok: bool, ind: int) -> None:
 
 
 def g_block(em: Em, ind: int, d: int, in_loop: bool, nmax: int) -> None:
-    n = em.draw(em.st.integers(0, nmax))
+    n = em.rint(0, nmax)
     for _ in range(n):
         g_stmt(em, ind, d, in_loop)
 
@@ -960,7 +1090,7 @@ def g_stmt(em: Em, ind: int, d: int, in_loop: bool) -> None:
         g_expr(em, 1, 2, True, ind)
         em.eol()
         g_block(em, ind + 1, d - 1, in_loop, 3)
-        for _ in range(em.draw(em.st.integers(0, 2)) if em.chance(40) else 0):
+        for _ in range(em.rint(0, 2) if em.chance(40) else 0):
             em.indent(ind)
             em.tok('elif')
             g_expr(em, 1, 1, True, ind)
@@ -989,38 +1119,38 @@ def g_stmt(em: Em, ind: int, d: int, in_loop: bool) -> None:
         em.eol()
 
 
+def build_program(data: bytes) -> dict:
+    ent = Ent(data)
+    case: dict = {}
+    gen_config(ent, case)
+    simplify_on = case['cfg'].get('simplify_string_literals', True) is not False
+    wild = ent.pick([0, 1, 1, 2, 2, 3])
+    em = Em(ent, wild, simplify_on)
+    # leading blank / comment lines
+    if em.chance(15):
+        for _ in range(em.rint(1, 3)):
+            em.out.append(em.pick(['\n', '  \n']) if em.chance(40) else em.spaces() + em.comment() + '\n')
+    g_block(em, 0, 2, False, 5)
+    src = em.text()
+    end = em.rint(0, 9)
+    if end == 1:
+        src = src.rstrip('\n')                                  # missing final newline
+    elif end == 2:
+        src = src + '\n\n'
+    elif end == 3:
+        src = src + em.spaces() + em.comment()                  # trailing comment without newline
+    elif end == 4:
+        src = src + '   '
+    case['src'] = src
+    case['kind'] = f'grammar/wild{wild}'
+    case['emitted_comments'] = list(em.comments)
+    case['defused'] = em.defused
+    return case
+
+
 def st_program() -> T.Any:
     from hypothesis import strategies as st
-
-    @st.composite
-    def prog(draw: T.Any) -> dict:
-        case: dict = {}
-        attach_config(draw, case)
-        simplify_on = case['cfg'].get('simplify_string_literals', True) is not False
-        wild = draw(st.sampled_from([0, 1, 1, 2, 2, 3]))
-        em = Em(draw, wild, simplify_on)
-        # leading blank / comment lines
-        if em.chance(15):
-            for _ in range(draw(st.integers(1, 3))):
-                em.out.append(em.pick(['\n', '  \n']) if em.chance(40) else em.spaces() + em.comment() + '\n')
-        g_block(em, 0, 2, False, 5)
-        src = em.text()
-        end = draw(st.integers(0, 9))
-        if end == 0:
-            src = src.rstrip('\n')                                  # missing final newline
-        elif end == 1:
-            src = src + '\n\n'
-        elif end == 2:
-            src = src + em.spaces() + em.comment()                  # trailing comment without newline
-        elif end == 3:
-            src = src + '   '
-        case['src'] = src
-        case['kind'] = f'grammar/wild{wild}'
-        case['emitted_comments'] = list(em.comments)
-        case['defused'] = em.defused
-        return case
-
-    return prog()
+    return st.binary(min_size=1200, max_size=1200).map(build_program)
 
 
 SPECIAL_SOURCES = ['', '\n', '\n\n\n', '# only a comment', '# only a comment\n', '  # indented comment\n\n# second\n', '   ', '\t\n',
@@ -1187,24 +1317,24 @@ def mutate(src: str, ops: T.List[T.Tuple[int, int, int]]) -> T.Tuple[str, T.List
     return ''.join(g + t for g, t in zip(gaps, texts)) + tail, applied
 
 
+def build_mutant(data: bytes, nfiles: int, max_size: int) -> dict:
+    ent = Ent(data)
+    case: dict = {}
+    gen_config(ent, case)
+    files = [c for c in corpus() if len(c[1]) <= max_size][:nfiles]
+    rel, text = files[ent.below(len(files))]
+    safe = [0, 0, 0, 1, 1, 2, 2, 3, 4, 5, 5, 9]
+    ops = [(ent.pick(safe), ent.below(1 << 20), ent.below(64)) for _ in range(ent.below(9))]
+    if ent.below(3) == 1:
+        ops += [(ent.below(10), ent.below(1 << 20), ent.below(64)) for _ in range(1 + ent.below(2))]
+    src, applied = mutate(text, ops)
+    case.update({'src': src, 'kind': 'corpus-mutated' if applied else 'corpus-plain', 'file': rel, 'ops': applied})
+    return case
+
+
 def st_mutant(nfiles: int, max_size: int) -> T.Any:
     from hypothesis import strategies as st
-    safe_op = st.tuples(st.sampled_from([0, 0, 0, 1, 1, 2, 2, 3, 4, 5, 5, 9]), st.integers(0, 1 << 20), st.integers(0, 63))
-    any_op = st.tuples(st.integers(0, 9), st.integers(0, 1 << 20), st.integers(0, 63))
-
-    @st.composite
-    def m(draw: T.Any) -> dict:
-        files = [c for c in corpus() if len(c[1]) <= max_size][:nfiles]
-        rel, text = files[draw(st.integers(0, len(files) - 1))]
-        ops = draw(st.lists(safe_op, min_size=0, max_size=8))
-        if draw(st.integers(0, 2)) == 0:
-            ops = ops + draw(st.lists(any_op, min_size=1, max_size=2))
-        src, applied = mutate(text, ops)
-        case: dict = {'src': src, 'kind': 'corpus-mutated' if applied else 'corpus-plain', 'file': rel, 'ops': applied}
-        attach_config(draw, case)
-        return case
-
-    return m()
+    return st.binary(min_size=96, max_size=96).map(lambda d: build_mutant(d, nfiles, max_size))
 
 
 # ---------------------------------------------------------------------------
@@ -1254,16 +1384,37 @@ def polish(f: Failure, W: _Worker, budget: int = 8000) -> Failure:
             c2[k] = False
             if still(c2):
                 case = c2
+    def drop_ranges(items: T.List[str], join: T.Callable[[T.List[str]], str], cap: int) -> T.List[str]:
+        """remove contiguous ranges, longest first (finds balanced if/endif, (/) pairs that ddmin's fixed grid misses)"""
+        nonlocal case
+        used = 0
+        size = len(items) - 1
+        while size >= 1 and used < cap:
+            i = 0
+            progressed = False
+            while i + size <= len(items) and used < cap:
+                cand = items[:i] + items[i + size:]
+                used += 1
+                c2 = dict(case, src=join(cand))
+                if cand and still(c2):
+                    items = cand
+                    case = c2
+                    progressed = True
+                else:
+                    i += 1
+            size = min(size, len(items) - 1) if progressed else size - 1
+        return items
+
     for _round in range(3):
         before = case['src']
-        # lines
         lines = case['src'].split('\n')
         if len(lines) > 1:
-            lines = minimize_list(lines, lambda ls: still(dict(case, src='\n'.join(ls))), max_tests=800)
-            c2 = dict(case, src='\n'.join(lines))
-            if c2['src'] != case['src'] and still(c2):
-                case = c2
-        # tokens
+            if len(lines) > 40:
+                lines = minimize_list(lines, lambda ls: still(dict(case, src='\n'.join(ls))), max_tests=800)
+                c2 = dict(case, src='\n'.join(lines))
+                if c2['src'] != case['src'] and still(c2):
+                    case = c2
+            drop_ranges(case['src'].split('\n'), lambda ls: '\n'.join(ls), 1200)
         try:
             toks = R.lex(case['src'])[:-1]
         except R.RefError:
@@ -1276,10 +1427,40 @@ def polish(f: Failure, W: _Worker, budget: int = 8000) -> Failure:
             pos = t.pos + len(t.text)
         tail = src[pos:]
         if len(pieces) > 1:
-            pieces = minimize_list(pieces, lambda ps: still(dict(case, src=''.join(ps) + tail)), max_tests=2500)
-            c2 = dict(case, src=''.join(pieces) + tail)
-            if c2['src'] != case['src'] and still(c2):
-                case = c2
+            if len(pieces) > 60:
+                pieces = minimize_list(pieces, lambda ps: still(dict(case, src=''.join(ps) + tail)), max_tests=1500)
+                c2 = dict(case, src=''.join(pieces) + tail)
+                if c2['src'] != case['src'] and still(c2):
+                    case = c2
+                    src = case['src']
+                    toks = R.lex(src)[:-1]
+                    pieces = []
+                    pos = 0
+                    for t in toks:
+                        pieces.append(src[pos:t.pos] + t.text)
+                        pos = t.pos + len(t.text)
+                    tail = src[pos:]
+            pieces = drop_ranges(pieces, lambda ps: ''.join(ps) + tail, 2500)
+            # matching bracket pairs (a redundant '(' ... ')' cannot go with one contiguous range)
+            changed = True
+            while changed:
+                changed = False
+                stack: T.List[int] = []
+                pairs = []
+                for q, pc in enumerate(pieces):
+                    last = pc.strip()[-1:] if pc.strip() else ''
+                    if last in ('(', '[', '{') and not pc.strip().startswith(('#', "'", "f'")):
+                        stack.append(q)
+                    elif last in (')', ']', '}') and stack and not pc.strip().startswith(('#', "'", "f'")):
+                        pairs.append((stack.pop(), q))
+                for a2, b2 in pairs:
+                    cand = [x for q, x in enumerate(pieces) if q not in (a2, b2)]
+                    c2 = dict(case, src=''.join(cand) + tail)
+                    if still(c2):
+                        pieces = cand
+                        case = c2
+                        changed = True
+                        break
         if case['src'] == before:
             break
     # blanks: squeeze runs of spaces
